@@ -94,10 +94,12 @@ def eval_cases(cases):
             real_fail = res["rc"] != 0
             if model_fail != real_fail or (real_fail and pred["exit"] != res["rc"]):
                 rec["ties"].append({"what": "status differs", "model": pred, "real": slim(res)})
-            elif model_fail and c["cls"] in ("unterminated block", "mismatched block") and not kinds \
-                    and re.search(r"is undefined", res["stderr"] + res["log"]):
-                # a loop closed early: the template engine met the loop variable first (templates are not in this model)
-                rec["skipped"] = "template variable undefined after a shifted block boundary"
+            elif model_fail and c["pattern"] == F.P_BLOCK_LOOSE and pred["fault"]["k"] not in kinds:
+                # a consequence of the shifted block boundary surfaced at an earlier row (template variable
+                # undefined, block without loose exit, …): outside this model; status and file are still tied
+                rec["skipped"] = "consequence of a shifted block boundary surfaced first"
+                if (res["out"] is None) != (pred["file"] is None):
+                    rec["ties"].append({"what": "file presence differs", "model": pred, "real": slim(res)})
             elif model_fail:
                 k = pred["fault"]["k"]
                 if k not in kinds:
@@ -189,8 +191,8 @@ def known_worker(items):
 
 
 def build_cases(bases, tier, rng):
-    """fault class × base × site; quick: a sample per (class, base) that always holds the first and
-    the last site; sentinel mode alternates (thorough: every site, both modes)."""
+    """fault class × base × site; quick: a seeded sample per (class, base) (first and last site of
+    long site lists always included); the output-file mode alternates."""
     cases = []
     strata = {}
     n = 0
@@ -206,7 +208,8 @@ def build_cases(bases, tier, rng):
                 sites = [s for i, s in enumerate(sites) if i in keep]
             for site, wbf, pattern in sites:
                 n += 1
-                modes = [False, True] if tier != "quick" else [n % 2 == 0]
+                # thorough: every site; every 4th in both output-file modes, the others alternating
+                modes = [False, True] if (tier != "quick" and n % 4 == 0) else [n % 2 == 0]
                 cases.append({"id": n, "cls": cls, "base": wb["name"], "site": site, "wb": wbf, "pattern": pattern,
                               "kinds": sorted(kinds), "listed": listed, "modes": modes})
     return cases, strata
